@@ -1,22 +1,34 @@
 (* The generated syntax trees of the pure helpers (Gen/Pure.v, dumped from the Python AST of
    /repo on every run) compute, under the reference semantics Spec/PyMini.v, exactly what
-   the hand-written models compute -- for ALL arguments. *)
+   the hand-written models compute -- for ALL arguments.
+   (The key-decoding cascade get_key / _key_name / decodable / could_be_unfinished_char is in
+   Proofs/PureTieKeys.v.)
+   The proofs run the interpreter symbolically, one statement at a time (Proofs/PyStep.v);
+   they do not mention variable names or the shape of the generated trees. *)
 From Coq Require Import String Lia ZifyBool ZifyNat ZifyN.
-From Curtsies Require Import Model.Base Spec.ListOps Spec.PyMini Gen.Pure Model.Width Model.Keys Model.Slice.
+From Curtsies Require Import Model.Base Spec.ListOps Spec.PyMini Gen.Pure Model.Width Model.Keys Model.Slice Proofs.PyStep.
 Local Open Scope Z_scope.
 
-(* ---- interval_overlap -------------------------------------------------------- *)
+(* case analysis on the integer comparisons the evaluation is stuck on *)
 Ltac split_ifs :=
   repeat match goal with
-         | |- context [if ?c then _ else _] => let E := fresh "E" in destruct c eqn:E; cbn beta iota
+         | |- context [(?a <? ?b)%Z] => let E := fresh "E" in destruct (a <? b)%Z eqn:E; cbn beta iota
+         | |- context [(?a >? ?b)%Z] => let E := fresh "E" in destruct (a >? b)%Z eqn:E; cbn beta iota
+         | |- context [(?a <=? ?b)%Z] => let E := fresh "E" in destruct (a <=? b)%Z eqn:E; cbn beta iota
+         | |- context [(?a >=? ?b)%Z] => let E := fresh "E" in destruct (a >=? b)%Z eqn:E; cbn beta iota
+         | |- context [(?a =? ?b)%Z] => let E := fresh "E" in destruct (a =? b)%Z eqn:E; cbn beta iota
          end.
+Ltac zcbv := cbv - [exec exec_block Z.gtb Z.ltb Z.sub Z.max Z.min Z.add Z.geb Z.leb Z.eqb Z.opp].
+Ltac zrun := repeat first [ py_unfold1; zcbv | progress split_ifs ].
 
+(* ---- interval_overlap -------------------------------------------------------- *)
 Theorem interval_overlap_tie : forall a b x y,
   call py_interval_overlap [VInt a; VInt b; VInt x; VInt y] = Ok (VInt (interval_overlap a b x y)).
 Proof.
-  intros a b x y. unfold interval_overlap.
-  cbv - [Z.gtb Z.ltb Z.sub Z.max Z.min Z.add Z.geb Z.leb Z.eqb Z.opp].
-  split_ifs; f_equal; f_equal; lia.
+  intros a b x y. unfold interval_overlap, call.
+  zcbv. zrun.
+  all: first [ f_equal; f_equal; lia
+             | fail 2 "TIE BROKEN: the repository's curtsies.formatstring.interval_overlap no longer computes what the model computes" ].
 Qed.
 
 (* ---- normalize_slice ----------------------------------------------------------- *)
@@ -35,11 +47,12 @@ Definition embed_bounds (r : res (Z * Z)) : res val :=
 Theorem normalize_slice_tie : forall length ix,
   call py_normalize_slice [VInt length; embed_index ix] = embed_bounds (normalize_slice length ix).
 Proof.
-  intros length ix. unfold normalize_slice.
-  destruct ix as [i | [a|] [b|] [st|]];
-    cbv - [Z.gtb Z.ltb Z.sub Z.max Z.min Z.add Z.geb Z.leb Z.eqb Z.opp];
-    split_ifs; try reflexivity; try (repeat f_equal; lia); try lia.
-  all: repeat (f_equal; try lia).
+  intros length ix. unfold normalize_slice, call.
+  destruct ix as [i | [a|] [b|] [st|]]; zcbv.
+  all: zrun.
+  all: try reflexivity; try (repeat f_equal; lia); try lia.
+  all: first [ solve [repeat (f_equal; try lia)]
+             | fail 2 "TIE BROKEN: the repository's curtsies.formatstring.normalize_slice no longer computes what the model computes" ].
 Qed.
 
 (* ---- could_be_unfinished_utf8 --------------------------------------------------- *)
@@ -63,28 +76,33 @@ Proof.
   apply Z.eqb_neq. intro H. apply Hne. now apply N2Z.inj.
 Qed.
 
+(* the proof script, used with the empty context here and with the context of the events
+   module in Proofs/PureTieKeys.v; [ucbv] = evaluation that leaves the evaluator of
+   statements, the arithmetic and the context's tables folded *)
+Ltac ucbv := cbv - [exec exec_block slice_list Z.land Z.eqb Z.ltb Z.of_N Z.of_nat List.length N.land N.eqb Nat.ltb].
+Ltac utf8_tie_proof_with ucbv o rest :=
+  unfold could_be_unfinished_utf8;
+  ucbv; repeat first [ py_unfold1; ucbv | rewrite slice_first; ucbv ];
+  pose proof (land_eqb o 224 192) as H1; pose proof (land_eqb o 240 224) as H2;
+  pose proof (land_eqb o 248 240) as H3; pose proof (land_eqb o 252 248) as H4;
+  pose proof (land_eqb o 254 252) as H5; cbn [Z.of_N] in H1, H2, H3, H4, H5;
+  rewrite ?H1, ?H2, ?H3, ?H4, ?H5; clear H1 H2 H3 H4 H5;
+  assert (L : forall k : nat, (Z.of_nat (Datatypes.length (o :: rest)) <? Z.of_nat k) = (Datatypes.length (o :: rest) <? k)%nat)
+    by (intro k; lia);
+  pose proof (L 2%nat) as L2; pose proof (L 3%nat) as L3; pose proof (L 4%nat) as L4;
+  pose proof (L 5%nat) as L5; pose proof (L 6%nat) as L6; cbn [Z.of_nat Pos.of_succ_nat Pos.succ] in L2, L3, L4, L5, L6;
+  rewrite ?L2, ?L3, ?L4, ?L5, ?L6; clear L L2 L3 L4 L5 L6;
+  destruct (N.land o 224 =? 192)%N, (N.land o 240 =? 224)%N, (N.land o 248 =? 240)%N,
+           (N.land o 252 =? 248)%N, (N.land o 254 =? 252)%N;
+    cbn [andb orb];
+    repeat match goal with
+           | |- context [(?a <? ?b)%nat] => destruct (a <? b)%nat; cbn [andb orb]
+           end; first [ reflexivity | fail 2 "TIE BROKEN: the repository's curtsies.events.could_be_unfinished_utf8 no longer computes what the model computes" ].
+
 Theorem could_be_unfinished_utf8_tie : forall seq,
   call py_could_be_unfinished_utf8 [VBytes seq] = embed_bool (could_be_unfinished_utf8 seq).
 Proof.
   intros [|o rest].
   - reflexivity.
-  - unfold could_be_unfinished_utf8.
-    cbv - [slice_list Z.land Z.eqb Z.ltb Z.of_N Z.of_nat List.length N.land N.eqb Nat.ltb].
-    rewrite slice_first.
-    cbv - [Z.land Z.eqb Z.ltb Z.of_N Z.of_nat List.length N.land N.eqb Nat.ltb].
-    pose proof (land_eqb o 224 192) as H1. pose proof (land_eqb o 240 224) as H2.
-    pose proof (land_eqb o 248 240) as H3. pose proof (land_eqb o 252 248) as H4.
-    pose proof (land_eqb o 254 252) as H5. cbn [Z.of_N] in H1, H2, H3, H4, H5.
-    rewrite H1, H2, H3, H4, H5. clear H1 H2 H3 H4 H5.
-    assert (L : forall k : nat, (Z.of_nat (Datatypes.length (o :: rest)) <? Z.of_nat k) = (Datatypes.length (o :: rest) <? k)%nat)
-      by (intro k; lia).
-    pose proof (L 2%nat) as L2. pose proof (L 3%nat) as L3. pose proof (L 4%nat) as L4.
-    pose proof (L 5%nat) as L5. pose proof (L 6%nat) as L6. cbn [Z.of_nat Pos.of_succ_nat Pos.succ] in L2, L3, L4, L5, L6.
-    rewrite L2, L3, L4, L5, L6. clear L L2 L3 L4 L5 L6.
-    destruct (N.land o 224 =? 192)%N, (N.land o 240 =? 224)%N, (N.land o 248 =? 240)%N,
-             (N.land o 252 =? 248)%N, (N.land o 254 =? 252)%N;
-      cbn [andb orb];
-      repeat match goal with
-             | |- context [(?a <? ?b)%nat] => destruct (a <? b)%nat; cbn [andb orb]
-             end; reflexivity.
+  - unfold call. utf8_tie_proof_with ltac:(ucbv) o rest.
 Qed.
